@@ -308,6 +308,10 @@ def rule_dot_invert(ctx, rule='R13.6'):
                     bad.append('self.data rebound by an out-of-place call')
             if bdata.t is not None and not bdata.t.equals(B):
                 bad.append('right operand modified')
+            casts = [x for x in evs if x['kind'] == 'dtype-cast' and (x['target'] or '').startswith(('self', 'other'))]
+            if casts:
+                bad.append('the result is stored into an array that has the dtype of an operand (%s at %s): integer data is '
+                           'truncated' % (casts[0].get('via'), casts[0]['loc']))
             sp = res.attrs.get('space') if isinstance(res, Obj) else None
             if not (isinstance(sp, Const) and sp.v == ('Space', 'Real')):
                 bad.append('result space is %r' % (sp,))
@@ -482,6 +486,20 @@ def _identity_sem(ctx, cls):
         sp = o.attrs.get('space')
         if isinstance(sp, Const) and sp.v is not None and not (isinstance(sp.v, tuple) and sp.v[0] == 'Space'):
             bad.append('space is %r' % (sp.v,))
+        # a second identity array of the same shape, built in the same process, owns its own memory (in-place arithmetic on
+        # one must not reach the other) and is the identity as well
+        o2 = ip.construct(cls, [], {'length': Num(L), 'rank': const_num(rank)})
+        d2 = o2.attrs.get('data')
+        r1 = data.base if isinstance(data, View) else data
+        r2 = d2.base if isinstance(d2, View) else d2
+        if r1 is r2:
+            bad.append('rank %d: two IdentityMatrixArrays of the same shape share one data array (an in-place operation on one '
+                       'changes the other and every identity created later)' % rank)
+        elif isinstance(d2, Arr):
+            for i in range(rank):
+                t = ip.read_cell(d2, i, i)
+                if P.is_pw(t) or not t.equals(N.NF.const(1)):
+                    bad.append('rank %d: the second identity array has %s at [%d,%d]' % (rank, P.show(t), i, i))
     return bad
 
 
@@ -639,18 +657,38 @@ def rule_typemap(ctx, rule='R13.t'):
         ctx.undecided(rule, construct, str(e), m.loc())
         return
     bad = []
-    for order, o in made:
-        tm = o.attrs.get('typeMap')
-        if not (isinstance(tm, Obj) and tm.cls == 'dict'):
-            ctx.undecided(rule, construct, 'typeMap is not a dict', m.loc())
-            return
-        got = {k: (int(v.t.const_value()) if isinstance(v, Num) and v.t.is_const() else repr(v)) for k, v in tm.attrs['items'].items()}
-        want = {t: i for i, t in enumerate(order)}
-        if got != want:
-            bad.append('a MatrixArray with types %s (created after arrays with other type orders) maps names to columns as %s, '
-                       'expected %s' % (list(order), got, want))
+    # behaviour, not the attribute: after ALL arrays exist, each one is written and read through its public item interface
+    # with type names and the pair functions are inspected at their positions in *that* array's own type list
+    try:
+        for order, o in made:
+            data = o.attrs.get('data')
+            if not isinstance(data, Arr):
+                raise Unsupported('MatrixArray.data is %r' % (data,))
+            setter, getter = ip.find_method(o, '__setitem__'), ip.find_method(o, '__getitem__')
+            for i, a in enumerate(order):
+                for j, b in enumerate(order):
+                    if i > j:
+                        continue
+                    name = 'w_%s_%s%s' % (''.join(order), a, b)
+                    ip.declare(name, 'curve')
+                    ip.call(setter, [Seq([Const(a), Const(b)]), Arr(N.sym(name), None, ip)], {})
+            for i, a in enumerate(order):
+                for j, b in enumerate(order):
+                    lo, hi = (a, b) if i <= j else (b, a)
+                    want = N.sym('w_%s_%s%s' % (''.join(order), lo, hi))
+                    got = ip.read_cell(data, i, j)
+                    if P.is_pw(got) or not got.equals(want):
+                        bad.append('array with types %s (others with permuted types exist): position [%d,%d] holds %s after '
+                                   'M[%r,%r] = %s was assigned' % (list(order), i, j, P.show(got), lo, hi, N.show(want)))
+                    back = ip.call(getter, [Seq([Const(a), Const(b)])], {})
+                    tb = ip.term_of(back)[0]
+                    if P.is_pw(tb) or not tb.equals(want):
+                        bad.append('array with types %s: M[%r,%r] reads %s, expected %s' % (list(order), a, b, P.show(tb), N.show(want)))
+    except (Unsupported, Raised) as e:
+        ctx.undecided(rule, construct, str(e), m.loc())
+        return
     if bad:
-        ctx.violation(rule, construct, 'typemap', '; '.join(bad), m.loc())
+        ctx.violation(rule, construct, 'typemap', '; '.join(bad[:3]), m.loc())
     else:
         ctx.holds(rule, construct, 'name -> column map follows the instance\'s own type list (three arrays with permuted / extended '
                   'type lists constructed in one process)', m.loc())
